@@ -77,7 +77,7 @@ def catalogue():
     c["bytes-hex"] = ({"k": "Bytes", "o": {"encoding": "hex", "default": Y(b"\x00\xff")}}, [Y(b"ab"), Y(bytes(range(7)))], [5])
     c["float-precise"] = ({"k": "Float", "o": {"default": F(0.1 + 0.2)}}, [F(1234567.891), F(1e-7), F(123456789012345680.0)], ["x"])
     c["int-big"] = ({"k": "Int"}, [2 ** 40, -(2 ** 62), 0], ["x"])
-    c["str-tricky"] = ({"k": "Str", "o": {"default": " padded "}}, ["true", "1.0", "", "<&>\"'\n\ttab", "\u00e9\U0001F600", "null", "]]>", " ", "caf\udce9.txt"], [5])
+    c["str-tricky"] = ({"k": "Str", "o": {"default": " padded "}}, ["true", "1.0", "", "<&>\"'\n\ttab", "\u00e9\U0001F600", "null", "]]>", " ", "caf\udce9.txt", "line one\x85line two", "a\u2028b"], [5])
     c["list-bytes"] = ({"k": "List", "item": {"k": "Bytes"}}, [[Y(b"ab"), Y(b"\xff")], []], [[5], [BA(b"ab")]])
     c["list-challenge"] = ({"k": "List", "item": {"k": "Challenge", "o": {"hash_algorithm": "sha1"}}}, [["pw1", "pw2"]], [[5]])
     c["list-secure"] = ({"k": "List", "item": {"k": "Secure", "o": {"method": "xor"}}}, [["sec-1", "sec-2"], ["a-secret-that-is-longer-than-the-thirty-two-byte-key"]], [])
